@@ -355,68 +355,324 @@ srv_harness! {
 
 /// The same rejections through the whole `Server::handle` (daemon call shape) under the two
 /// concrete policies that would otherwise answer (everybody allowed => time; client on the deny
-/// list with action deny => DENY kiss): cheap per call, so many (first byte, length) pairs fit
-/// into one harness. `b0s` empty = symbolic first byte.
+/// list with action deny => DENY kiss). The calls are written out (no loops) so that the
+/// harnesses run with a minimal unwind bound.
 #[cfg(kani)]
-fn reject_wire(b0s: &[u8], lens: &[usize]) {
-    let mut msg: [u8; 60] = kani::any();
-    let info = any_server_info();
+fn reject_server(class: crate::c16::Class) -> Server<SymClock> {
     any_dispersion();
+    let info = any_server_info();
     let now: u64 = kani::any();
-    let recv: u64 = kani::any();
-    let mut c = 0;
-    while c < 2 {
-        let class = if c == 0 { crate::c16::Class::Time } else { crate::c16::Class::DenyList };
-        let cfg = crate::c16::class_cfg(class, crate::c16::ALL_VERSIONS);
-        let mut server = build_server(&cfg, SymClock { now: tt::ts_from_raw(now) }, info, zero_keyset());
-        let n_b0 = if b0s.is_empty() { 1 } else { b0s.len() };
-        let mut i = 0;
-        while i < n_b0 {
-            if !b0s.is_empty() {
-                msg[0] = b0s[i];
-            }
-            let mut j = 0;
-            while j < lens.len() {
-                let len = lens[j];
-                let mut stats = RecStats::new();
-                let mut send_buf = [0u8; 60];
-                let act = server.handle(IpAddr::V4(Ipv4Addr::new(192, 0, 2, 1)), tt::ts_from_raw(recv), &msg[..len], &mut send_buf[..len], &mut stats);
-                assert!(matches!(act, ServerAction::Ignore), "C15: malformed / non-client / unknown-version datagrams are never answered");
-                assert!(stats.calls == 1 && stats.response == ServerResponse::Ignore && stats.reason == ServerReason::ParseError && !stats.nts, "C21: recorded once as (ParseError, Ignore)");
-                let vn = if len > 0 { (msg[0] >> 3) & 7 } else { 0 };
-                assert!(stats.version == vn, "C21: recorded version is the datagram's version field");
-                j += 1;
-            }
-            i += 1;
-        }
-        std::mem::forget(server);
-        c += 1;
-    }
-    kani::cover!(msg[1] == 7, "contents symbolic");
+    let cfg = crate::c16::class_cfg(class, crate::c16::ALL_VERSIONS);
+    build_server(&cfg, SymClock { now: tt::ts_from_raw(now) }, info, zero_keyset())
+}
+
+macro_rules! reject_one {
+    ($server:expr, $msg:expr, $len:expr) => {{
+        let mut stats = RecStats::new();
+        let mut send_buf = [0u8; 60];
+        let act = $server.handle(IpAddr::V4(Ipv4Addr::new(192, 0, 2, 1)), tt::ts_from_raw(0x0123_4567_89AB_CDEF), &$msg[..$len], &mut send_buf[..$len], &mut stats);
+        assert!(matches!(act, ServerAction::Ignore), "C15: malformed / non-client / unknown-version datagrams are never answered");
+        assert!(stats.calls == 1 && stats.response == ServerResponse::Ignore && stats.reason == ServerReason::ParseError && !stats.nts, "C21: recorded once as (ParseError, Ignore)");
+        let vn = if $len > 0 { ($msg[0] >> 3) & 7 } else { 0 };
+        assert!(stats.version == vn, "C21: recorded version is the datagram's version field");
+    }};
 }
 
 srv_harness! {
-    #[kani::unwind(15)]
+    #[kani::unwind(3)]
+    fn c15_reject_wire_modes_v4() {
+        // NTPv4, every mode other than client(3), 48 B and with a 4-byte MAC
+        let mut msg: [u8; 60] = kani::any();
+        let mut server = reject_server(crate::c16::Class::Time);
+        msg[0] = 0x20; reject_one!(server, msg, 48);
+        msg[0] = 0x20; reject_one!(server, msg, 52);
+        msg[0] = 0x21; reject_one!(server, msg, 48);
+        msg[0] = 0x21; reject_one!(server, msg, 52);
+        msg[0] = 0x22; reject_one!(server, msg, 48);
+        msg[0] = 0x22; reject_one!(server, msg, 52);
+        msg[0] = 0x24; reject_one!(server, msg, 48);
+        msg[0] = 0x24; reject_one!(server, msg, 52);
+        msg[0] = 0x25; reject_one!(server, msg, 48);
+        msg[0] = 0x25; reject_one!(server, msg, 52);
+        msg[0] = 0x26; reject_one!(server, msg, 48);
+        msg[0] = 0x26; reject_one!(server, msg, 52);
+        msg[0] = 0x27; reject_one!(server, msg, 48);
+        msg[0] = 0x27; reject_one!(server, msg, 52);
+        std::mem::forget(server);
+        let mut server = reject_server(crate::c16::Class::DenyList);
+        msg[0] = 0x20; reject_one!(server, msg, 48);
+        msg[0] = 0x20; reject_one!(server, msg, 52);
+        msg[0] = 0x21; reject_one!(server, msg, 48);
+        msg[0] = 0x21; reject_one!(server, msg, 52);
+        msg[0] = 0x22; reject_one!(server, msg, 48);
+        msg[0] = 0x22; reject_one!(server, msg, 52);
+        msg[0] = 0x24; reject_one!(server, msg, 48);
+        msg[0] = 0x24; reject_one!(server, msg, 52);
+        msg[0] = 0x25; reject_one!(server, msg, 48);
+        msg[0] = 0x25; reject_one!(server, msg, 52);
+        msg[0] = 0x26; reject_one!(server, msg, 48);
+        msg[0] = 0x26; reject_one!(server, msg, 52);
+        msg[0] = 0x27; reject_one!(server, msg, 48);
+        msg[0] = 0x27; reject_one!(server, msg, 52);
+        std::mem::forget(server);
+        kani::cover!(msg[1] == 7, "contents symbolic");
+    }
+}
+srv_harness! {
+    #[kani::unwind(3)]
+    fn c15_reject_wire_modes_v3() {
+        // NTPv3, every mode other than client(3), 48 B and with a 4-byte MAC
+        let mut msg: [u8; 60] = kani::any();
+        let mut server = reject_server(crate::c16::Class::Time);
+        msg[0] = 0x18; reject_one!(server, msg, 48);
+        msg[0] = 0x18; reject_one!(server, msg, 52);
+        msg[0] = 0x19; reject_one!(server, msg, 48);
+        msg[0] = 0x19; reject_one!(server, msg, 52);
+        msg[0] = 0x1A; reject_one!(server, msg, 48);
+        msg[0] = 0x1A; reject_one!(server, msg, 52);
+        msg[0] = 0x1C; reject_one!(server, msg, 48);
+        msg[0] = 0x1C; reject_one!(server, msg, 52);
+        msg[0] = 0x1D; reject_one!(server, msg, 48);
+        msg[0] = 0x1D; reject_one!(server, msg, 52);
+        msg[0] = 0x1E; reject_one!(server, msg, 48);
+        msg[0] = 0x1E; reject_one!(server, msg, 52);
+        msg[0] = 0x1F; reject_one!(server, msg, 48);
+        msg[0] = 0x1F; reject_one!(server, msg, 52);
+        std::mem::forget(server);
+        let mut server = reject_server(crate::c16::Class::DenyList);
+        msg[0] = 0x18; reject_one!(server, msg, 48);
+        msg[0] = 0x18; reject_one!(server, msg, 52);
+        msg[0] = 0x19; reject_one!(server, msg, 48);
+        msg[0] = 0x19; reject_one!(server, msg, 52);
+        msg[0] = 0x1A; reject_one!(server, msg, 48);
+        msg[0] = 0x1A; reject_one!(server, msg, 52);
+        msg[0] = 0x1C; reject_one!(server, msg, 48);
+        msg[0] = 0x1C; reject_one!(server, msg, 52);
+        msg[0] = 0x1D; reject_one!(server, msg, 48);
+        msg[0] = 0x1D; reject_one!(server, msg, 52);
+        msg[0] = 0x1E; reject_one!(server, msg, 48);
+        msg[0] = 0x1E; reject_one!(server, msg, 52);
+        msg[0] = 0x1F; reject_one!(server, msg, 48);
+        msg[0] = 0x1F; reject_one!(server, msg, 52);
+        std::mem::forget(server);
+        kani::cover!(msg[1] == 7, "contents symbolic");
+    }
+}
+srv_harness! {
+    #[kani::unwind(3)]
+    fn c15_reject_wire_versions() {
+        // version fields 0,1,2,6,7 (client mode)
+        let mut msg: [u8; 60] = kani::any();
+        let mut server = reject_server(crate::c16::Class::Time);
+        msg[0] = 0x03; reject_one!(server, msg, 48);
+        msg[0] = 0x0B; reject_one!(server, msg, 48);
+        msg[0] = 0x13; reject_one!(server, msg, 48);
+        msg[0] = 0x33; reject_one!(server, msg, 48);
+        msg[0] = 0x3B; reject_one!(server, msg, 48);
+        std::mem::forget(server);
+        let mut server = reject_server(crate::c16::Class::DenyList);
+        msg[0] = 0x03; reject_one!(server, msg, 48);
+        msg[0] = 0x0B; reject_one!(server, msg, 48);
+        msg[0] = 0x13; reject_one!(server, msg, 48);
+        msg[0] = 0x33; reject_one!(server, msg, 48);
+        msg[0] = 0x3B; reject_one!(server, msg, 48);
+        std::mem::forget(server);
+        kani::cover!(msg[1] == 7, "contents symbolic");
+    }
+}
+srv_harness! {
+    #[kani::unwind(3)]
+    fn c15_reject_wire_v5() {
+        // the NTPv5 header alone (request and response mode): no draft identification => ignored
+        let mut msg: [u8; 60] = kani::any();
+        let mut server = reject_server(crate::c16::Class::Time);
+        msg[0] = 0x2B; reject_one!(server, msg, 48);
+        msg[0] = 0x2C; reject_one!(server, msg, 48);
+        std::mem::forget(server);
+        let mut server = reject_server(crate::c16::Class::DenyList);
+        msg[0] = 0x2B; reject_one!(server, msg, 48);
+        std::mem::forget(server);
+        kani::cover!(msg[1] == 7, "contents symbolic");
+    }
+}
+srv_harness! {
+    #[kani::unwind(3)]
+    fn c15_reject_wire_trailing() {
+        // 1..3 trailing bytes after a v3/v4 client header: neither a MAC nor an extension field
+        let mut msg: [u8; 60] = kani::any();
+        let mut server = reject_server(crate::c16::Class::Time);
+        msg[0] = 0x1B; reject_one!(server, msg, 49);
+        msg[0] = 0x1B; reject_one!(server, msg, 50);
+        msg[0] = 0x1B; reject_one!(server, msg, 51);
+        msg[0] = 0x23; reject_one!(server, msg, 49);
+        msg[0] = 0x23; reject_one!(server, msg, 50);
+        msg[0] = 0x23; reject_one!(server, msg, 51);
+        std::mem::forget(server);
+        let mut server = reject_server(crate::c16::Class::DenyList);
+        msg[0] = 0x1B; reject_one!(server, msg, 49);
+        msg[0] = 0x1B; reject_one!(server, msg, 50);
+        msg[0] = 0x1B; reject_one!(server, msg, 51);
+        msg[0] = 0x23; reject_one!(server, msg, 49);
+        msg[0] = 0x23; reject_one!(server, msg, 50);
+        msg[0] = 0x23; reject_one!(server, msg, 51);
+        std::mem::forget(server);
+        kani::cover!(msg[1] == 7, "contents symbolic");
+    }
+}
+srv_harness! {
+    #[kani::unwind(3)]
     fn c15_reject_short() {
-        // lengths below a header (sample incl. both ends), symbolic first byte (any version, any mode)
-        reject_wire(&[], &[0, 1, 2, 3, 4, 8, 16, 24, 32, 40, 44, 46, 47]);
+        // lengths 0, 1, 24, 47 for first bytes v4/v3/v5 client and version 0
+        // (a symbolic first byte leaves the parser's error variant symbolic and symex then walks
+        // the NAK response path for every call: > 5 GB)
+        let mut msg: [u8; 60] = kani::any();
+        let mut server = reject_server(crate::c16::Class::Time);
+        msg[0] = 0x23; reject_one!(server, msg, 0);
+        msg[0] = 0x23; reject_one!(server, msg, 1);
+        msg[0] = 0x23; reject_one!(server, msg, 24);
+        msg[0] = 0x23; reject_one!(server, msg, 47);
+        msg[0] = 0x1B; reject_one!(server, msg, 0);
+        msg[0] = 0x1B; reject_one!(server, msg, 1);
+        msg[0] = 0x1B; reject_one!(server, msg, 24);
+        msg[0] = 0x1B; reject_one!(server, msg, 47);
+        msg[0] = 0x2B; reject_one!(server, msg, 0);
+        msg[0] = 0x2B; reject_one!(server, msg, 1);
+        msg[0] = 0x2B; reject_one!(server, msg, 24);
+        msg[0] = 0x2B; reject_one!(server, msg, 47);
+        msg[0] = 0x03; reject_one!(server, msg, 0);
+        msg[0] = 0x03; reject_one!(server, msg, 1);
+        msg[0] = 0x03; reject_one!(server, msg, 24);
+        msg[0] = 0x03; reject_one!(server, msg, 47);
+        std::mem::forget(server);
+        let mut server = reject_server(crate::c16::Class::DenyList);
+        msg[0] = 0x23; reject_one!(server, msg, 0);
+        msg[0] = 0x23; reject_one!(server, msg, 1);
+        msg[0] = 0x23; reject_one!(server, msg, 24);
+        msg[0] = 0x23; reject_one!(server, msg, 47);
+        msg[0] = 0x1B; reject_one!(server, msg, 0);
+        msg[0] = 0x1B; reject_one!(server, msg, 1);
+        msg[0] = 0x1B; reject_one!(server, msg, 24);
+        msg[0] = 0x1B; reject_one!(server, msg, 47);
+        msg[0] = 0x2B; reject_one!(server, msg, 0);
+        msg[0] = 0x2B; reject_one!(server, msg, 1);
+        msg[0] = 0x2B; reject_one!(server, msg, 24);
+        msg[0] = 0x2B; reject_one!(server, msg, 47);
+        msg[0] = 0x03; reject_one!(server, msg, 0);
+        msg[0] = 0x03; reject_one!(server, msg, 1);
+        msg[0] = 0x03; reject_one!(server, msg, 24);
+        msg[0] = 0x03; reject_one!(server, msg, 47);
+        std::mem::forget(server);
+        kani::cover!(msg[1] == 7, "contents symbolic");
     }
 }
 srv_harness! {
-    #[kani::unwind(49)]
+    #[kani::unwind(3)]
     fn c15_reject_short_all() {
-        // every length 0..=47, symbolic first byte
-        reject_wire(&[], &[0, 1, 2, 3, 4, 5, 6, 7, 8, 9, 10, 11, 12, 13, 14, 15, 16, 17, 18, 19, 20, 21, 22, 23, 24, 25, 26, 27, 28, 29, 30, 31, 32, 33, 34, 35, 36, 37, 38, 39, 40, 41, 42, 43, 44, 45, 46, 47]);
-    }
-}
-srv_harness! {
-    #[kani::unwind(15)]
-    fn c15_reject_wire() {
-        // non-client modes of v3/v4 (48 and 52 bytes), unknown versions, NTPv5 header alone,
-        // 1..3 trailing bytes
-        reject_wire(&[0x18, 0x19, 0x1A, 0x1C, 0x1D, 0x1E, 0x1F, 0x20, 0x21, 0x22, 0x24, 0x25, 0x26, 0x27], &[48, 52]);
-        reject_wire(&[0x03, 0x0B, 0x13, 0x33, 0x3B, 0x2B, 0x2C], &[48]);
-        reject_wire(&[0x1B, 0x23], &[49, 50, 51]);
+        // every length 0..=47, NTPv4 client first byte
+        // (a symbolic first byte leaves the parser's error variant symbolic and symex then walks
+        // the NAK response path for every call: > 5 GB)
+        let mut msg: [u8; 60] = kani::any();
+        let mut server = reject_server(crate::c16::Class::Time);
+        msg[0] = 0x23; reject_one!(server, msg, 0);
+        msg[0] = 0x23; reject_one!(server, msg, 1);
+        msg[0] = 0x23; reject_one!(server, msg, 2);
+        msg[0] = 0x23; reject_one!(server, msg, 3);
+        msg[0] = 0x23; reject_one!(server, msg, 4);
+        msg[0] = 0x23; reject_one!(server, msg, 5);
+        msg[0] = 0x23; reject_one!(server, msg, 6);
+        msg[0] = 0x23; reject_one!(server, msg, 7);
+        msg[0] = 0x23; reject_one!(server, msg, 8);
+        msg[0] = 0x23; reject_one!(server, msg, 9);
+        msg[0] = 0x23; reject_one!(server, msg, 10);
+        msg[0] = 0x23; reject_one!(server, msg, 11);
+        msg[0] = 0x23; reject_one!(server, msg, 12);
+        msg[0] = 0x23; reject_one!(server, msg, 13);
+        msg[0] = 0x23; reject_one!(server, msg, 14);
+        msg[0] = 0x23; reject_one!(server, msg, 15);
+        msg[0] = 0x23; reject_one!(server, msg, 16);
+        msg[0] = 0x23; reject_one!(server, msg, 17);
+        msg[0] = 0x23; reject_one!(server, msg, 18);
+        msg[0] = 0x23; reject_one!(server, msg, 19);
+        msg[0] = 0x23; reject_one!(server, msg, 20);
+        msg[0] = 0x23; reject_one!(server, msg, 21);
+        msg[0] = 0x23; reject_one!(server, msg, 22);
+        msg[0] = 0x23; reject_one!(server, msg, 23);
+        msg[0] = 0x23; reject_one!(server, msg, 24);
+        msg[0] = 0x23; reject_one!(server, msg, 25);
+        msg[0] = 0x23; reject_one!(server, msg, 26);
+        msg[0] = 0x23; reject_one!(server, msg, 27);
+        msg[0] = 0x23; reject_one!(server, msg, 28);
+        msg[0] = 0x23; reject_one!(server, msg, 29);
+        msg[0] = 0x23; reject_one!(server, msg, 30);
+        msg[0] = 0x23; reject_one!(server, msg, 31);
+        msg[0] = 0x23; reject_one!(server, msg, 32);
+        msg[0] = 0x23; reject_one!(server, msg, 33);
+        msg[0] = 0x23; reject_one!(server, msg, 34);
+        msg[0] = 0x23; reject_one!(server, msg, 35);
+        msg[0] = 0x23; reject_one!(server, msg, 36);
+        msg[0] = 0x23; reject_one!(server, msg, 37);
+        msg[0] = 0x23; reject_one!(server, msg, 38);
+        msg[0] = 0x23; reject_one!(server, msg, 39);
+        msg[0] = 0x23; reject_one!(server, msg, 40);
+        msg[0] = 0x23; reject_one!(server, msg, 41);
+        msg[0] = 0x23; reject_one!(server, msg, 42);
+        msg[0] = 0x23; reject_one!(server, msg, 43);
+        msg[0] = 0x23; reject_one!(server, msg, 44);
+        msg[0] = 0x23; reject_one!(server, msg, 45);
+        msg[0] = 0x23; reject_one!(server, msg, 46);
+        msg[0] = 0x23; reject_one!(server, msg, 47);
+        std::mem::forget(server);
+        let mut server = reject_server(crate::c16::Class::DenyList);
+        msg[0] = 0x23; reject_one!(server, msg, 0);
+        msg[0] = 0x23; reject_one!(server, msg, 1);
+        msg[0] = 0x23; reject_one!(server, msg, 2);
+        msg[0] = 0x23; reject_one!(server, msg, 3);
+        msg[0] = 0x23; reject_one!(server, msg, 4);
+        msg[0] = 0x23; reject_one!(server, msg, 5);
+        msg[0] = 0x23; reject_one!(server, msg, 6);
+        msg[0] = 0x23; reject_one!(server, msg, 7);
+        msg[0] = 0x23; reject_one!(server, msg, 8);
+        msg[0] = 0x23; reject_one!(server, msg, 9);
+        msg[0] = 0x23; reject_one!(server, msg, 10);
+        msg[0] = 0x23; reject_one!(server, msg, 11);
+        msg[0] = 0x23; reject_one!(server, msg, 12);
+        msg[0] = 0x23; reject_one!(server, msg, 13);
+        msg[0] = 0x23; reject_one!(server, msg, 14);
+        msg[0] = 0x23; reject_one!(server, msg, 15);
+        msg[0] = 0x23; reject_one!(server, msg, 16);
+        msg[0] = 0x23; reject_one!(server, msg, 17);
+        msg[0] = 0x23; reject_one!(server, msg, 18);
+        msg[0] = 0x23; reject_one!(server, msg, 19);
+        msg[0] = 0x23; reject_one!(server, msg, 20);
+        msg[0] = 0x23; reject_one!(server, msg, 21);
+        msg[0] = 0x23; reject_one!(server, msg, 22);
+        msg[0] = 0x23; reject_one!(server, msg, 23);
+        msg[0] = 0x23; reject_one!(server, msg, 24);
+        msg[0] = 0x23; reject_one!(server, msg, 25);
+        msg[0] = 0x23; reject_one!(server, msg, 26);
+        msg[0] = 0x23; reject_one!(server, msg, 27);
+        msg[0] = 0x23; reject_one!(server, msg, 28);
+        msg[0] = 0x23; reject_one!(server, msg, 29);
+        msg[0] = 0x23; reject_one!(server, msg, 30);
+        msg[0] = 0x23; reject_one!(server, msg, 31);
+        msg[0] = 0x23; reject_one!(server, msg, 32);
+        msg[0] = 0x23; reject_one!(server, msg, 33);
+        msg[0] = 0x23; reject_one!(server, msg, 34);
+        msg[0] = 0x23; reject_one!(server, msg, 35);
+        msg[0] = 0x23; reject_one!(server, msg, 36);
+        msg[0] = 0x23; reject_one!(server, msg, 37);
+        msg[0] = 0x23; reject_one!(server, msg, 38);
+        msg[0] = 0x23; reject_one!(server, msg, 39);
+        msg[0] = 0x23; reject_one!(server, msg, 40);
+        msg[0] = 0x23; reject_one!(server, msg, 41);
+        msg[0] = 0x23; reject_one!(server, msg, 42);
+        msg[0] = 0x23; reject_one!(server, msg, 43);
+        msg[0] = 0x23; reject_one!(server, msg, 44);
+        msg[0] = 0x23; reject_one!(server, msg, 45);
+        msg[0] = 0x23; reject_one!(server, msg, 46);
+        msg[0] = 0x23; reject_one!(server, msg, 47);
+        std::mem::forget(server);
+        kani::cover!(msg[1] == 7, "contents symbolic");
     }
 }
 
